@@ -500,6 +500,33 @@ func corrProbe(r *Rng, which string) (line, got string) {
 			ns = append(ns, showPath(q))
 		}
 		return "model split " + pathStr(p), m + " | " + strings.Join(ns, " ; ")
+	case "offopen":
+		// raw rings of one open path of >= 2 points (Joined: both directions; otherwise the capped walk,
+		// whose caps the code never builds), non-Round joins, positive group delta as doGroupOffset sets it
+		p := corrPath(r)
+		for len(p) < 2 {
+			p = append(p, sp())
+		}
+		k := []int64{1, 10, 10, 1000}[r.Intn(4)]
+		for i := range p {
+			p[i] = P{X: p[i].X*k + int64(r.Range(-1, 1)), Y: p[i].Y*k + int64(r.Range(-1, 1))}
+		}
+		jt := []clip.JoinType{clip.Miter, clip.Square, clip.Bevel}[r.Intn(3)]
+		et := []clip.EndType{clip.Joined, clip.Butt, clip.SquareET}[r.Intn(3)]
+		d := []float64{0.5, 1, 2.5, 3, 7, 10, 50}[r.Intn(7)] * float64([]int64{1, 1, k}[r.Intn(3)])
+		ml := []float64{0, 2, 3}[r.Intn(3)]
+		var out clip.Paths64
+		got := ""
+		if f := safeCall(func() { out = clip.VOffsetOpenRaw(p, d, jt, et, ml) }); f != "" {
+			got = "fault"
+		} else {
+			var ss []string
+			for _, q := range out {
+				ss = append(ss, showPath(q))
+			}
+			got = strings.Join(ss, " ; ")
+		}
+		return fmt.Sprintf("model offopen %d %d %d %d %s", jt, b2i(et == clip.Joined), math.Float64bits(d), math.Float64bits(ml), pathStr(p)), got
 	case "contain":
 		// the containment vote of the PolyTree owner search: rings on small grids (vertices ON the
 		// other ring, shared edges, crossings), so that all three stages of the test are reached
@@ -799,7 +826,7 @@ func corrProbe(r *Rng, which string) (line, got string) {
 }
 
 var genProbes = []string{"triSign", "multiplyUInt64", "productsAreEqual", "isCollinear", "CrossProduct", "dotProduct64", "segsIntersect", "checkPrecision", "IsOdd", "ptsReallyClose", "isContributingClosed", "isContributingOpen", "getLocation", "getEdgesForPt", "isHeadingClockwise", "headingClockwise", "getAdjacentLocation", "areOpposites", "hasHorzOverlap", "hasVertOverlap", "isClockwise", "getSegmentIntersection", "getSegmentIntersectPt", "rectMethods", "getBounds", "GetBounds64", "Area64", "PerpendicDistFromLineSqr64", "PerpendicDistFromLineSqrD", "areaTriangle"}
-var modelProbes = []string{"offplan", "rectpoly", "rectline", "pipop", "scan", "lowest", "trim", "simp64", "pip", "strip", "mink", "vertex", "clean", "build", "tree", "tree", "areaop", "contain", "aelins", "offraw", "split", "buildpaths", "split", "buildpaths"}
+var modelProbes = []string{"offplan", "rectpoly", "rectline", "pipop", "scan", "lowest", "trim", "simp64", "pip", "strip", "mink", "vertex", "clean", "build", "tree", "tree", "areaop", "contain", "aelins", "offraw", "offopen", "split", "buildpaths", "split", "buildpaths"}
 
 func corrStage(name string, probes []string, quick, thorough int, rule string) {
 	stages[name] = func(ctx *Ctx, cnt func(q, t int) int, replay string) Result {
@@ -831,5 +858,5 @@ func corrStage(name string, probes []string, quick, thorough int, rule string) {
 func init() {
 	corrStage("gen-corr", genProbes, 60000, 3000000, "translator validation: every generated function (Gen.*) is evaluated by the Lean oracle on operand-value inputs and compared with the real function called in-process (sign only for float64 cross / dot products, bit patterns for Area64, areaTriangle, PerpendicDistFromLineSqr64 and PerpendicDistFromLineSqrD, the last on float operands up to 2^29 with segments up to 2^28 long); non-trivial = any probe with a non-empty argument list")
 	corrStage("wind-corr", []string{"windc", "windx", "windd", "windc", "windd", "windopen"}, 60000, 2500000, "correspondence of the winding-count bookkeeping model (Model.Wind) with the real setWindCountForClosedPathEdge / setWindCountForOpenPathEdge / intersectEdges (counts, hotness afterwards and output records created, for hot / cold / front / back / shared-record combinations) run on synthetic active-edge lists (verif hook): 0-5 edges left of the new edge, subject / clip / open edges, all four fill rules, counts either produced by the real insertion (consistent states) or arbitrary in -3..3; resulting counts compared exactly")
-	corrStage("models-corr", modelProbes, 230000, 6000000, "function-level correspondence of the hand models (TrimCollinear64, SimplifyPath64, PointInPolygon, StripDuplicates, minkowskiInternal, addPathsToVertexList [vertex ring, flags, local minima], cleanCollinear's removal loop and buildPath on synthetic output rings, fixSelfIntersects / doSplitOp on rings whose next-but-one edges cross [remaining ring, dropped rings, created records], buildPaths on 1-3 synthetic records [the whole post-sweep pipeline incl. records appended while the loop runs], buildTree on synthetic tables of output records with nested / disjoint rectangles, arbitrary owner links and splits lists, pointInOpPolygon, path1InsidePath2 / getCleanPath on synthetic rings and the exported Path2ContainsPath1, isValidAelOrder / insertLeftEdge on synthetic active-edge lists (0-5 residents, shared bottom points, equal x, collinear edges, joined pairs), areaOP on synthetic rings at magnitudes up to 2^40 (float bit patterns), Group.GetLowestPathInfo, insertScanline / popScanline, RectClipLinesPaths64 [whole line machine] the raw rings of RectClip64.executeInternal [polygon state machine before checkEdges], the raw offset ring of one closed path [getUnitNormal, buildNormals, offsetPolygon, offsetPoint, doMiter / doSquare / doBevel and their float helpers, bit for bit, edges up to 2^35 long], and the decision events of ClipperOffset.Execute64 [group delta, per-path dispatch, final union]): random paths of 0-8 vertices on 2-4 wide grids (forcing duplicates, collinear runs, wrap-around cases) at three magnitudes; outputs compared exactly")
+	corrStage("models-corr", modelProbes, 230000, 6000000, "function-level correspondence of the hand models (TrimCollinear64, SimplifyPath64, PointInPolygon, StripDuplicates, minkowskiInternal, addPathsToVertexList [vertex ring, flags, local minima], cleanCollinear's removal loop and buildPath on synthetic output rings, fixSelfIntersects / doSplitOp on rings whose next-but-one edges cross [remaining ring, dropped rings, created records], buildPaths on 1-3 synthetic records [the whole post-sweep pipeline incl. records appended while the loop runs], buildTree on synthetic tables of output records with nested / disjoint rectangles, arbitrary owner links and splits lists, pointInOpPolygon, path1InsidePath2 / getCleanPath on synthetic rings and the exported Path2ContainsPath1, isValidAelOrder / insertLeftEdge on synthetic active-edge lists (0-5 residents, shared bottom points, equal x, collinear edges, joined pairs), areaOP on synthetic rings at magnitudes up to 2^40 (float bit patterns), Group.GetLowestPathInfo, insertScanline / popScanline, RectClipLinesPaths64 [whole line machine] the raw rings of RectClip64.executeInternal [polygon state machine before checkEdges], the raw offset rings of one closed path and of one open path (Joined: both directions; capped: the walk whose caps are never built) [getUnitNormal, buildNormals, offsetPolygon, offsetPoint, doMiter / doSquare / doBevel and their float helpers, bit for bit, edges up to 2^35 long], and the decision events of ClipperOffset.Execute64 [group delta, per-path dispatch, final union]): random paths of 0-8 vertices on 2-4 wide grids (forcing duplicates, collinear runs, wrap-around cases) at three magnitudes; outputs compared exactly")
 }
